@@ -33,6 +33,50 @@ def sorted_trace(ctx, exe, args, tag, timeout=900):
     return srt
 
 
+def drop_nth(pat, k):
+    def f(lines):
+        c = 0
+        for i, ln in enumerate(lines):
+            if pat in ln:
+                c += 1
+                if c == k:
+                    return lines[:i] + lines[i + 1:]
+        return None
+    return f
+
+
+def dup_nth(pat, k):
+    def f(lines):
+        c = 0
+        for i, ln in enumerate(lines):
+            if pat in ln:
+                c += 1
+                if c == k:
+                    return lines[:i + 1] + [ln] + lines[i + 1:]
+        return None
+    return f
+
+
+def wrong_code(lines):
+    for i, ln in enumerate(lines):
+        if '"e":"Enq"' in ln and '"why":"timer_cancel"' in ln:
+            lines[i] = ln.replace('"ec":1,', '"ec":0,').replace('"ec":125,', '"ec":0,')
+            if lines[i] != ln:
+                return lines
+    return None
+
+
+def early_timer(lines):
+    import re as _re
+    for i, ln in enumerate(lines):
+        if '"e":"TimerFire"' in ln:
+            m = _re.search(r'"now":(-?\d+),"dl":(-?\d+)', ln)
+            if m:
+                lines[i] = ln.replace('"now":%s,' % m.group(1), '"now":%d,' % (int(m.group(2)) - 1))
+                return lines
+    return None
+
+
 def classify(x):
     ev = x["event"]
     for k in ("Quiesce", "PQuiesce", "Enq", "Deq", "Run", "TimerFire", "CancelTimer", "SetTimer", "SetIo", "PPop", "PCancel", "Job", "PDone", "Died"):
@@ -88,6 +132,9 @@ def run(ctx):
             i = ln.find('"e":')
             ctx.seen("loop:" + ln[i:i + 24].split(",")[0] + (ln[ln.find('"why"'):][:24] if '"why"' in ln else ""))
         rej = ctx.validate("Aio/LoopTrace.tla", "LoopTrace.cfg", srt, timeout=900)
+        if n == 1 and not rej:
+            ctx.binding_selftest("Aio/LoopTrace.tla", "LoopTrace.cfg", srt, [("drop-run", drop_nth('"e":"Run"', 5)), ("dup-run", dup_nth('"e":"Run"', 7)),
+                                 ("wrong-code", wrong_code), ("early-timer", early_timer)])
         for x in rej:
             ctx.violation("loop:%s:%s" % (spec[4], classify(x)), "event-loop trace is not a behaviour of Loop at %s" % x["event"][:200], x["path"])
         os.remove(srt)
